@@ -54,6 +54,7 @@ class LeanStatus:
         self.gate_hits: list[str] = []
         self.theorems: dict[str, dict] = {}
         self.generated_changed: list[str] = []
+        self.rechecked = "not run (quick tier)"
 
     @property
     def obligations(self) -> int:
@@ -130,7 +131,7 @@ def props_registry() -> dict[str, list[str]]:
     return json.loads((LEAN / "props.json").read_text())
 
 
-def lean_prepare(pid: str, translate=None) -> LeanStatus:
+def lean_prepare(pid: str, translate=None, tier: str = "quick") -> LeanStatus:
     """regenerate generated models, build, gate, audit axioms of the theorems of `pid`."""
     st = LeanStatus()
     lock = _lock()
@@ -196,6 +197,15 @@ def lean_prepare(pid: str, translate=None) -> LeanStatus:
                     "why": ("inadmissible axioms " + ",".join(bad)) if bad else "",
                     "axioms": found[n],
                 }
+        if tier == "thorough":
+            # the toolchain's independent re-checker replays the compiled module in a fresh kernel
+            r = subprocess.run(["lake", "env", "leanchecker", f"OdfProps.{pid}"], cwd=LEAN, capture_output=True, text=True)
+            if r.returncode == 0:
+                st.rechecked = f"leanchecker OdfProps.{pid}: accepted"
+            else:
+                st.rechecked = f"leanchecker OdfProps.{pid}: REJECTED"
+                st.build_ok = False
+                st.build_log = "leanchecker rejected the module:\n" + (r.stdout + r.stderr)[-3000:]
         return st
     finally:
         lock.close()
@@ -414,6 +424,7 @@ class Check:
             "histograms": {k: dict(v.most_common(40)) for k, v in self.hist.items()},
             "exhaustive": self.exhaustive,
             "lean_rebuilt": lean.generated_changed if lean else [],
+            "lean_rechecked": lean.rechecked if lean else "",
         }
         cov.update(self.extra)
         ev = {
